@@ -38,6 +38,8 @@ GET_BODY = [ANY(x) for x in [
     # R8 (units/guard): the Mutex guard alias is inlined
     {'rule': 'R8', 'regex': r'let mut chain = self\.chain\.lock\(\)\.unwrap\(\);', 'replace': ''},
     {'rule': 'R8', 'regex': r'(?<![.\w])chain\b', 'replace': 'self.chain'},
+    # R8 (units/guard): the same guard used without an alias: `self.chain.lock().unwrap().f(..)` -> `self.chain.f(..)`
+    {'rule': 'R8', 'regex': r'self\.chain\.lock\(\)\.unwrap\(\)', 'replace': 'self.chain'},
     {'rule': 'R7', 'regex': r'self\.chain\.contains\(&key\)', 'replace': 'hoist_contains(&self.chain, &key)'},
     {'rule': 'R4', 'regex': r'assert_eq!\(self\.chain\.pop\(\), Some\(key\)\);', 'replace': 'let popped__ = self.chain.pop(); hoist_assert_eq(popped__, Some(key));'},
     # R8: `cache.get_or_compute(K, || C)` -> lookup; on a miss C evaluated in place, then stored under K with the ghost
@@ -51,7 +53,7 @@ GET_BODY = [ANY(x) for x in [
      'replace': r'(match self.resolve(\1) { Ok(p) => \2, Err(e__) => Err(e__) })'},
     {'rule': 'R7', 'regex': r'Shared::new\(', 'replace': 'hoist_shared_new('},
     {'rule': 'R7', 'regex': r'Arc::new\(e\)', 'replace': 'hoist_arc_new(e)'},
-    {'rule': 'R7', 'regex': r'(T::from_primitive\(p, self\)\?)\.into\(\)', 'replace': r'hoist_into_shared(\1)'},
+    {'rule': 'R7', 'regex': r'RcRef::new\(key, ((?:[^()]|\([^()]*\))*?)\.into\(\)\)', 'replace': r'RcRef::new(key, hoist_into_shared(\1))'},
     {'rule': 'R3', 'regex': r'PdfError::Shared \{ source: e\.clone\(\)\s*\}', 'replace': 'PdfError::Shared { source: hoist_shared_source(&e) }'},
 ]]
 
@@ -102,7 +104,8 @@ if _has_defer():
 else:
     _GET = {'kind': 'fn', 'file': FILE, 'container': IMPL_RES, 'name': 'get', 'props': PR, 'ret': 'out',
             'requires': ['old(self).wf()'], 'ensures': GET_ENS, 'rewrites': SIG_GET + GET_BODY}
-    _GUARDED = {'kind': 'decl', 'file': FILE, 'header': r'^struct Defer<F: FnMut\(\)>\(F\);$',
+    # (dummy item for the template marker: any declaration that is in every tree; `struct Defer` itself may be gone with the guard)
+    _GUARDED = {'kind': 'decl', 'file': FILE, 'header': r"^struct StorageResolver<'a, B, OC, SC, L>$",
                 'rewrites': [{'rule': 'R2', 'regex': r'\A.*\Z', 'replace': '// StorageResolver::get has no drop guard in this tree: verified as one function'}]}
 
 ARGS = 'StreamArgs { id: id, range: range, filters: filters@ }'
@@ -154,7 +157,7 @@ UNIT = {
   'StorageResolver::get__guarded': _GUARDED,
   'StorageResolver::get': _GET,
 
-  'StorageResolver::get_data_or_decode': {'kind': 'fn', 'file': FILE, 'container': IMPL_RES, 'name': 'get_data_or_decode', 'props': PR,
+  'StorageResolver::get_data_or_decode': {'kind': 'fn', 'file': FILE, 'container': IMPL_RES, 'name': 'get_data_or_decode', 'props': PR + ['C06'],   # C06: what a stream read answers IS Storage::decode (decrypt, then the filters: units/filterchain)
       # the arguments are those of a stream object of this document, the filters a prefix of its filter list: every call
       # site hands over the fields of a Stream value read from the document (Stream::data, ImageXObject::raw_image_data below)
       # The stream cache is keyed by (object number, number of filters) -- NOT by the byte range. So the precondition is part of
